@@ -19,6 +19,12 @@ CHECKS["C06"] = (
     "Ground truth is the rendered source; trusts the independent stub recogniser (mc/sds_parser.py); signatures longer than the bound and default values outside the letter set are not covered.",
     "6/C06",
 )
+CHECKS["C05"] = (
+    E1,
+    "Every annotation term over 12 leaves + 8 Literal forms and 23 constructors up to depth 1 (complete) and depth 2 (slice in quick; complete for unary inner terms in thorough, 4.6e5 terms) is written into five positions (parameter, constructor parameter, result, class attribute, instance attribute), analysed by the real pipeline, and the parsed Safe-DS type (normalised: unions as sets, nullable forms unified) is compared with an independent reference translation of the statement's mapping; position independence is checked for all terms, listed or not.",
+    "Reference translation is hand-written from the statement; don't-care: a result list consisting of a single None. Terms deeper than 2 are not covered.",
+    "6/C05",
+)
 NOT_YET = {}  # id -> reason (filled for properties without a check)
 
 props = [json.loads(l) for l in open(V / "properties.jsonl")]
